@@ -1,0 +1,19 @@
+//go:build verif
+
+package globals
+
+import (
+	"os"
+	"time"
+)
+
+// With the verif tag the day the compiler believes it is becomes an input:
+// FRUGAL_VERIF_NOW (RFC 3339) replaces the clock reading taken at start. Used
+// by /verif's check of output determinism to compile "on another day".
+func init() {
+	if s := os.Getenv("FRUGAL_VERIF_NOW"); s != "" {
+		if t, err := time.Parse(time.RFC3339, s); err == nil {
+			Now = t
+		}
+	}
+}
